@@ -642,6 +642,16 @@ def _run_history(ctx, rng, case):
             do(e1, layers + [shared_descr], "first user of shared list")
             do(e2, d_now + [shared_descr], "second user of shared list")
             do(e1, layers + [shared_descr], "first user again")
+            if rng.random() < 0.5:
+                # the first user gets one more adapter: that is its own business - the caller's list stays what it
+                # is, and a connection made from that list afterwards knows nothing of it
+                e1.add_adapter(H.RequestAdapterAddPathPrefix("/e1only"))
+                steps.append(["add_adapter on the first user of the shared list"])
+                e3 = H.HttpConn(conn, adapters=shared)
+                do(e3, layers + [shared_descr], "third user of shared list")
+                # (an adapter added later is asked last: it acts like an innermost layer)
+                do(e1, [[('prefix', "/e1only")]] + layers + [shared_descr], "first user after add_adapter")
+                ctx.count("connections_made_from_a_list_whose_earlier_user_got_another_adapter")
             if [id(a) for a in shared] != keep_ids:
                 fail("caller-adapter-list-modified", {"len_before": len(keep_ids), "len_after": len(shared)})
             do(conn, layers, "orig after shared-list derivations")
@@ -660,9 +670,21 @@ def _run_history(ctx, rng, case):
                     fail("caller-adapter-list-modified", {"len_after": len(clone_arg)})
         except Exception as err:
             fail("clone-raises", {"how": how, "type": type(err).__name__, "msg": str(err)[:150]})
+        if how == 'none' and rng.random() < 0.6:
+            # the clone's connection gets an adapter of its own: requests through the original stay what they were
+            try:
+                cl.http_conn.add_adapter(H.RequestAdapterAddPathPrefix("/cl-own"))
+                steps.append(["add_adapter on the connection of the clone"])
+                do(m.http_conn, ml, "connection of the original after add_adapter on the clone's")
+                ctx.count("clones_without_adapters_whose_connection_got_one_later")
+            except Stop:
+                raise
+            except Exception as err:
+                fail("clone-raises", {"how": how, "type": type(err).__name__, "msg": str(err)[:150]})
+            how = 'late'
         if how == 'list':
             ctx.count("clone_with_list")
-        cl_layers = ml + [[] if how == 'none' else [('prefix', "/c1")] if how == 'one'
+        cl_layers = ([[('prefix', "/cl-own")]] if how == 'late' else []) + ml + [[] if how in ('none', 'late') else [('prefix', "/c1")] if how == 'one'
                           else [('prefix', "/c1"), ('prefix', "/c2")]]
         # two caller classes made of the same mixins are used in this process, in either order
         m2 = M2(conn if isinstance(conn, H.HttpConn) else H.HttpConn(conn))
